@@ -697,6 +697,77 @@ STANDINS["C12"] = c12
 STANDINS["C11"] = c11
 
 
+def c09(rac, units, tier, seed):
+    rep = Report("C09 OP_CAST arm of eval() on temperature scales", "grid of magnitudes (integers, decimals, negatives, 1e30, 1e-30) x 6 direct conversions, all 3-step chains, round trips, prefixed kelvin; guard family: offset scale squared / inverted / multiplied with other units must be refused or treated as an interval")
+    rnd = random.Random(seed)
+    K0 = F(27315, 100)
+    to_k = {"K": lambda x: x, "°C": lambda x: x + K0, "°F": lambda x: (x - 32) * F(5, 9) + K0}
+    from_k = {"K": lambda k: k, "°C": lambda k: k - K0, "°F": lambda k: (k - K0) * F(9, 5) + 32}
+    mags = ["0", "1", "37", "100", "451", "0.5", "273.15", "32", "212", "1e30", "1e-30", "123456789.125", "0 - 40", "0 - 273.15", "0 - 459.67", "0 - 1e12"]
+    if tier != "quick":
+        mags += [f"{rnd.randint(-10**6, 10**6)} / {rnd.randint(1, 999)}" for _ in range(120)]
+
+    def val(m):
+        t = m.replace("0 - ", "-")
+        if "/" in t:
+            a, b = t.split("/")
+            return F(int(a), int(b))
+        return F(t)
+
+    def lit(m, u):
+        return f"({m}){u}" if (" " in m) else f"{m}{u}"
+    scales = ["K", "°C", "°F"]
+    for m in mags:
+        x = val(m)
+        for a in scales:
+            src = f"(0{a} - {m[4:]}{a})" if m.startswith("0 - ") else (f"({m.split('/')[0].strip()}{a} / {m.split('/')[1].strip()})" if "/" in m else f"{m}{a}")
+            if "/" in m and x < 0:
+                n = m.split("/")[0].strip()
+                src = f"((0{a} - {n[1:]}{a}) / {m.split('/')[1].strip()})"
+            for b in scales:
+                exp = from_k[b](to_k[a](x))
+                q = f"{src} to {b}"
+                st = single_value(rac.query(q))
+                rep.ran(q, True, dict(query=q, expected=str(exp)))
+                if st[0] != "ok" or st[1] != exp:
+                    rep.fail("defining affine formula", query=q, expected=str(exp), actual=str(st[1]) if len(st) > 1 else st[0])
+                for c in scales:
+                    q2 = f"({src} to {b}) to {c}"
+                    exp2 = from_k[c](to_k[a](x))
+                    st2 = single_value(rac.query(q2))
+                    rep.ran(q2, True)
+                    if st2[0] != "ok" or st2[1] != exp2:
+                        rep.fail("chain ends where the direct conversion does / inverse", query=q2, expected=str(exp2), actual=str(st2[1]) if len(st2) > 1 else st2[0])
+    for q, exp in [("1kK to °C", F(1000) - K0), ("273150mK to °C", F(0)), ("1mK to °C", F(1, 1000) - K0), ("1kK to °F", (F(1000) - K0) * F(9, 5) + 32), ("25°C to mK", (25 + K0) * 1000), ("(25°C to mK) to °C", F(25)), ("(212°F to kK) to °F", F(212))]:
+        st = single_value(rac.query(q))
+        rep.ran(q, True)
+        if st[0] != "ok" or st[1] != exp:
+            rep.fail("prefix is its power of ten next to an offset scale", query=q, expected=str(exp), actual=str(st[1]) if len(st) > 1 else st[0])
+    # guard family: refused, or interval reading (value scaled by the degree size only)
+    guard = [("10°C/s to K/s", F(10)), ("1 m*°C to m*K", F(1)), ("1 °C^2 to K^2", F(1)), ("1 °C^-1 to K^-1", F(1)), ("1 /°F to /K", F(9, 5)), ("10 K/s to °C/s", F(10)), ("9 °F/s to K/s", F(5)), ("1 °C*°C to K^2", F(1)),
+             ("5 K*m to °C*m", F(5)), ("1 J/°C to J/K", F(1)), ("1 W/m^2/°C to W/m^2/K", F(1))]
+    for q, interval in guard:
+        st = single_value(rac.query(q))
+        rep.ran(q, True, dict(query=q, expected=f"error or {interval}"))
+        if st[0] == "ok" and st[1] != interval:
+            rep.fail("zero-point offset added to a compound quantity", query=q, expected=f"an error or the interval reading {interval}", actual=str(st[1]))
+        elif st[0] not in ("ok", "err"):
+            rep.fail("neither value nor error", query=q, expected="error or interval reading", actual=st[0])
+    for q, interval_si in [("1 °C * 1 °C", None), ("2 °C * 3 m", None), ("10 J / 5 °C", None), ("1 °C / 1 s", None), ("1 °F * 1 °F", None), ("(1 m*°C) * 1 s", None)]:
+        st = single_value(rac.query(q))
+        rep.ran(q, True)
+        if st[0] == "ok":
+            si = units.si(st[2])
+            # interval reading: the product of the plain numbers times interval factors; anything involving 273.15 is the zero point
+            v = st[1]
+            if (v.denominator % 20 == 0 and v.denominator not in (1,)) or abs(v) > 1000:
+                rep.fail("zero-point offset added to a product/quotient", query=q, expected="an error or an interval reading", actual=str(v))
+    return [rep]
+
+
+STANDINS["C09"] = c09
+
+
 def register(prop):
     def deco(fn):
         STANDINS[prop] = fn
